@@ -516,7 +516,7 @@ void _mzd_trsm_upper_left(mzd_t const *U, mzd_t *B, const int cutoff) {
 }
 
 mzd_t *mzd_trtri_upper(mzd_t *U) {
-  if (U->nrows * U->ncols < __M4RI_CPU_L3_CACHE << 1) {
+  if ((double)U->nrows * U->ncols < 2.0 * __M4RI_CPU_L3_CACHE) {
     mzd_trtri_upper_russian(U, 0);
   } else {
     rci_t const n = U->nrows;
